@@ -149,29 +149,43 @@ def comps_of(cs):
     return [None if c is None else {k: float(v) for k, v in c.items()} for c in cs]
 
 
+def _init_arg(a):
+    """`initial_volumes` argument: scalar, list, or (for part of the cases, chosen by content) a float64 ndarray."""
+    if a[0] == "S":
+        return fl(a[1])
+    if a[0] == "V":
+        xs = [fl(x) for x in a[1]]
+        if xs and _layout(a) in (1, 2) and all(isinstance(x, float) or isinstance(x, int) for x in xs):
+            try:
+                return np.array(xs, dtype=float)
+            except (TypeError, ValueError):
+                return xs
+        return xs
+    return np.array([fl(x) for x in a[3]], dtype=float).reshape((a[1], a[2]))
+
+
+def _scribble(arg):
+    """The caller's array stays the caller's: after a successful construction it is overwritten.  A labware
+    that kept a reference instead of a copy would change with it (C04/C11/C20: its state is its own)."""
+    if isinstance(arg, np.ndarray) and arg.dtype == float and arg.flags.writeable:
+        arg[...] = -777.0
+
+
 def make_lab(spec: dict):
     if spec["kind"] == "plate":
         kwargs = dict(min_volume=fl(spec["min"]), max_volume=fl(spec["max"]))
+        init = None
         if spec.get("init") is not None:
-            a = spec["init"]
-            if a[0] == "S":
-                kwargs["initial_volumes"] = fl(a[1])
-            elif a[0] == "V":
-                kwargs["initial_volumes"] = [fl(x) for x in a[1]]
-            else:
-                kwargs["initial_volumes"] = np.array([fl(x) for x in a[3]], dtype=float).reshape((a[1], a[2]))
+            init = _init_arg(spec["init"])
+            kwargs["initial_volumes"] = init
         if spec.get("vrows") is not None:
             kwargs["virtual_rows"] = fl(spec["vrows"])
         if spec.get("names"):
             kwargs["component_names"] = dict(spec["names"])
-        return Labware(spec["name"], fl(spec["rows"]), fl(spec["cols"]), **kwargs)
-    a = spec["init"]
-    if a[0] == "S":
-        init = fl(a[1])
-    elif a[0] == "V":
-        init = [fl(x) for x in a[1]]
-    else:
-        init = np.array([fl(x) for x in a[3]], dtype=float).reshape((a[1], a[2]))
+        L = Labware(spec["name"], fl(spec["rows"]), fl(spec["cols"]), **kwargs)
+        _scribble(init)
+        return L
+    init = _init_arg(spec["init"])
     cn = spec.get("col_names")
     if cn is not None:
         if cn[0] == "S":
@@ -180,8 +194,10 @@ def make_lab(spec: dict):
             cn = list(cn[1])
         else:
             cn = [list(cn[3][i * cn[2]:(i + 1) * cn[2]]) for i in range(cn[1])]
-    return Trough(spec["name"], fl(spec["vrows"]), fl(spec["cols"]), min_volume=fl(spec["min"]),
-                  max_volume=fl(spec["max"]), initial_volumes=init, column_names=cn)
+    T = Trough(spec["name"], fl(spec["vrows"]), fl(spec["cols"]), min_volume=fl(spec["min"]),
+               max_volume=fl(spec["max"]), initial_volumes=init, column_names=cn)
+    _scribble(init)
+    return T
 
 
 def make_wl(cfg: dict, filepath=None):
